@@ -6,6 +6,7 @@ import ColoVerif.Proofs.GlobalLoop
 import ColoVerif.Proofs.SpreadFWitness
 import ColoVerif.Proofs.SpreadFCoord
 import ColoVerif.Proofs.GeomTie
+import ColoVerif.Gen.Params
 /-
 C06 — global placement stays inside the placement area and exports the blend.
 
@@ -108,6 +109,75 @@ theorem bins_inside_rows_bbox (c : Circuit) (margin binSize : Int) (hm : 0 ≤ m
     unfold Rect.Within at hbox0
     omega
   exact (bins_inside_area margin binSize _ _ _ hm hne' rfl hwfb hint hfree).2
+
+/-! ### The hypothesis `0 ≤ margin` is discharged by the parameter check (fix 07db192)
+
+`bins_inside_area` needs a non-negative margin — a hypothesis the proof forced, and the signal of a defect: until fix
+07db192 `RoughLegalizationParameters::check()` accepted any `sideMargin`, and a negative one made the clipped rows (hence
+the bins, hence the upper-bound placements) extend beyond the rows (`negative_margin_leaves_rows`).  The check
+conditions are regenerated from `src/parameters.cpp` on every run (`Gen/Params.lean`); removing the bound again breaks
+`accepted_side_margin_in_range`. -/
+
+/-- conversion of an in-range `float` to `int`: truncation towards zero -/
+def truncRat (q : Rat) : Int := Int.tdiv q.num q.den
+
+/-- `int margin = sideMargin * minCellHeight;` in `DensityGrid::fromIspdCircuit`: the `double` parameter is converted to
+`float` at the call, the `int` height to `float` for the product, the product is rounded and truncated.  `rnd` is any
+rounding that maps non-negative values to non-negative values (every IEEE rounding mode does). -/
+def marginOf (rnd : Rat → Rat) (sideMargin : Rat) (minCellHeight : Int) : Int :=
+  truncRat (rnd (rnd sideMargin * rnd minCellHeight))
+
+theorem truncRat_nonneg {q : Rat} (h : 0 ≤ q) : 0 ≤ truncRat q := by
+  unfold truncRat
+  exact Int.tdiv_nonneg (Rat.num_nonneg.mpr h) (Int.natCast_nonneg _)
+
+/-- Every `RoughLegalizationParameters` record that passes the translated `check()` has its side margin in [0, 100]. -/
+theorem accepted_side_margin_in_range (p : Gen.Params.RoughLegalizationParameters) (h : p.check = true) :
+    0 ≤ p.sideMargin ∧ p.sideMargin ≤ 100 := by
+  unfold Gen.Params.RoughLegalizationParameters.check ApiIR.checkPasses at h
+  have hm := List.all_eq_true.mp h
+    (((decide (p.sideMargin < (0 : Rat))) || (decide (p.sideMargin > (100 : Rat)))),
+      "Rough legalization side margin should be non-negative and small (a few standard cell heights)")
+    (by simp [Gen.Params.RoughLegalizationParameters.checkItems])
+  simp only [Bool.not_eq_true', Bool.or_eq_false_iff, decide_eq_false_iff_not, Rat.not_lt, gt_iff_lt] at hm
+  exact hm
+
+/-- … hence the margin `fromIspdCircuit` computes from an accepted parameter set is non-negative, whatever the smallest
+cell height (positive, or `INT_MAX` when no cell has a positive height). -/
+theorem accepted_margin_nonneg (rnd : Rat → Rat) (hr : ∀ q, 0 ≤ q → 0 ≤ rnd q)
+    (p : Gen.Params.RoughLegalizationParameters) (h : p.check = true) (minCellHeight : Int) (hH : 0 ≤ minCellHeight) :
+    0 ≤ marginOf rnd p.sideMargin minCellHeight := by
+  unfold marginOf
+  apply truncRat_nonneg
+  apply hr
+  apply Rat.mul_nonneg (hr _ (accepted_side_margin_in_range p h).1)
+  apply hr
+  exact_mod_cast hH
+
+/-- **For every parameter set the check accepts**, every bin limit of the grid of `DensityGrid::fromIspdCircuit` lies
+inside the bounding box of the rows: `bins_inside_rows_bbox` with its margin hypothesis discharged. -/
+theorem bins_inside_rows_bbox_accepted_params (c : Circuit) (rnd : Rat → Rat) (hr : ∀ q, 0 ≤ q → 0 ≤ rnd q)
+    (p : Gen.Params.RoughLegalizationParameters) (h : p.check = true) (minCellHeight : Int) (hH : 0 ≤ minCellHeight)
+    (binSize : Int) (hne : c.rows ≠ [])
+    (hwf : ∀ r ∈ c.rows, Rect.Within ⟨intMin, intMax, intMin, intMax⟩ r.rect) :
+    (∀ l ∈ (mkGrid binSize (gridRegions (marginOf rnd p.sideMargin minCellHeight) (c.computeRows.map (·.rect))
+        (c.rows.map (·.rect)))).limX,
+      (computePlacementArea (c.rows.map (·.rect))).minX ≤ l ∧ l ≤ (computePlacementArea (c.rows.map (·.rect))).maxX) ∧
+    (∀ l ∈ (mkGrid binSize (gridRegions (marginOf rnd p.sideMargin minCellHeight) (c.computeRows.map (·.rect))
+        (c.rows.map (·.rect)))).limY,
+      (computePlacementArea (c.rows.map (·.rect))).minY ≤ l ∧ l ≤ (computePlacementArea (c.rows.map (·.rect))).maxY) :=
+  bins_inside_rows_bbox c _ binSize (accepted_margin_nonneg rnd hr p h minCellHeight hH) hne hwf
+
+/-- non-vacuity: the rough-legalization parameters of every effort 1..9 (the translated default table) pass the check,
+so `accepted_*` speak about them. -/
+example : ∀ e ∈ Gen.Params.defaults, e.2.global.roughLegalization.check = true := by decide +kernel
+
+/-- Witness of the defect repaired by fix 07db192 (kernel-evaluated on the model the driver executes): with margin −3
+— `sideMargin = -3`, accepted before the fix, on cells of height 1 — the grid built over the single row `[0,20]×[0,4]`
+reaches from −3 to 23. -/
+theorem negative_margin_leaves_rows :
+    (mkGrid 5 (gridRegions (-3) [⟨0, 20, 0, 4⟩] [⟨0, 20, 0, 4⟩])).area.minX = -3 ∧
+    (mkGrid 5 (gridRegions (-3) [⟨0, 20, 0, 4⟩] [⟨0, 20, 0, 4⟩])).area.maxX = 23 := by decide
 
 /-- non-vacuity of `bins_inside_rows_bbox`: a circuit with one row and a fixed obstruction -/
 example :
